@@ -1048,6 +1048,13 @@ func (e *Env) evalCall(n *ast.CallExpr, hint types.Type) SV {
 		if ai != len(n.Args) {
 			efail("too many arguments to %s", name)
 		}
+		if len(sf.multi) > 0 {
+			out := make([]*Term, len(sf.multi))
+			for k, dk := range sf.multi {
+				out[k] = App(dk, args...)
+			}
+			return SV{ty: sf.rtype, l: out}
+		}
 		if len(leavesOf(sf.rtype)) != 1 {
 			efail("spec func %s must return a scalar", name)
 		}
@@ -1100,6 +1107,23 @@ func (x *Exec) declSpec(sf *SpecFunc) *UFDecl {
 	}
 	sf.rtype = env.resolveType(sf.result)
 	rs := scalarSort(sf.rtype)
+	if rs == nil && sf.body == nil {
+		// uninterpreted function with a structured result (an interface value, a small struct): one
+		// uninterpreted function per leaf
+		ls := leavesOf(sf.rtype)
+		if len(ls) == 0 {
+			efail("spec func %s: unsupported result type", sf.name)
+		}
+		for k, l := range ls {
+			dk := declUF(fmt.Sprintf("spec.%s.%s#%d", shortPkg(sf.pkg), sf.name, k), sorts, l.sort)
+			ufOrd++
+			dk.ord = ufOrd
+			dk.prm = prm
+			sf.multi = append(sf.multi, dk)
+		}
+		sf.decl = sf.multi[0]
+		return sf.decl
+	}
 	if rs == nil {
 		efail("spec func %s: result must be scalar", sf.name)
 	}
